@@ -107,6 +107,15 @@ func init() {
 			req = []proto.Message{MkMsg(restIdemAlphabet[0])}
 		}
 		end := &wire.End{Code: code.code, CodeStr: code.str, Message: msg, Details: det}
+		detailsDisagree := false
+		if (tp == vanguard.ProtocolGRPC || tp == vanguard.ProtocolGRPCWeb) && len(det) > 0 && code.code <= 16 {
+			// the google.rpc.Status inside grpc-status-details-bin names another code than grpc-status (0, or 3)
+			if dc := c.Choose("details-bin-status-code", 3); dc > 0 {
+				end.DetailsCodeSet, end.DetailsCode = true, []int32{0, 3}[dc-1]
+				detailsDisagree = int(end.DetailsCode) != code.code
+				c.Attr("~details-bin-code", fmt.Sprint(end.DetailsCode))
+			}
+		}
 		call := &mxCall{Base: b, ReqMsgs: req, RespMsgs: resp[:min(pos, len(resp))], End: end, TrailersOnly: pos == 0, Lenient: true}
 		if pos == 0 && c.Choose("compressed-error", 2) == 1 {
 			// the backend compresses what carries its error (error body of a flat protocol,
@@ -213,6 +222,11 @@ func init() {
 		}
 		if cr.BareHTTP {
 			c.Fail("C04.error-not-in-client-protocol", "client received a bare HTTP %d instead of an error in its protocol\n%s", status, desc())
+			return
+		}
+		if detailsDisagree {
+			// which of the two codes wins is not prescribed; that it is an error (checked above) is
+			c.Outcome("details-disagree")
 			return
 		}
 		if cr.End.Code != code.code {
